@@ -153,9 +153,27 @@ class Repository(object):
             raise PushFailedException(name) from err
 
     def push_all(self, prune=False):
-        prune = '--prune' if prune else ''
         try:
-            self.cmd('git push --all --atomic %s' % prune)
+            if not prune:
+                self.cmd('git push --all --atomic')
+                return
+            # Only propagate the branch deletions that were made locally.
+            # `git push --prune` would also delete every branch that somebody
+            # else created on the remote since this clone was taken.
+            fmt = '--format="%(refname)"'
+            local = set(self.cmd('git for-each-ref ' + fmt +
+                                 ' refs/heads').split())
+            tracked = self.cmd('git for-each-ref ' + fmt +
+                               ' refs/remotes/origin').split()
+            deleted = [
+                quote(':refs/heads/' + ref[len('refs/remotes/origin/'):])
+                for ref in tracked
+                if ref != 'refs/remotes/origin/HEAD' and
+                'refs/heads/' + ref[len('refs/remotes/origin/'):]
+                not in local
+            ]
+            self.cmd("git push --atomic origin 'refs/heads/*:refs/heads/*' " +
+                     ' '.join(deleted))
         except CommandError as err:
             raise PushFailedException(err) from err
 
